@@ -146,6 +146,26 @@ def pipeline_check(ctx, prop_file, focus, n=None):
                                       {"case": pipe.impl_case(scs[k]), "alone": outs[k], "reused": pipe.impl_tuples(it["res"])})
     ctx.correspondence("reused Linter: scenario files of one configuration linted one after the other (two orders) vs each alone", n_reuse, n_reuse, [],
                        "the external-linter results of the files differ (declared codes, diagnostics)")
+    # ---- the same scenarios in processes whose FIRST linted file used another configuration (other directive words, rules, external
+    #      linter): state that a first Linter leaves behind in the process must not reach later Linters
+    n_warm = n_warm_bad = 0
+    for gi in range(8):
+        foreign = pipe.gen_scenario(rng, {"fw": rng.choice(pipe.CUSTOM_WORDS), "lw": rng.choice(pipe.CUSTOM_WORDS)})
+        sub = list(range(gi * 60, min(len(scs), gi * 60 + 60)))
+        if not sub:
+            break
+        wres = lib.run_vh("lint", [pipe.impl_case(foreign)] + [pipe.impl_case(scs[k]) for k in sub], jobs=1)
+        for k, r in zip(sub, wres[1:]):
+            if impl[k] is None or lib_status(impl[k]) != "ok" or lib_status(r) != "ok":
+                continue
+            n_warm += 1
+            if pipe.impl_tuples(r) != outs[k]:
+                n_warm_bad += 1
+                if n_warm_bad <= 2:
+                    ctx.violation("%s.depends-on-an-earlier-linter-of-the-process" % ctx.prop, "a file linted after a differently configured Linter of the same process differs from the file linted first",
+                                  {"case": pipe.impl_case(scs[k]), "first_case_of_the_process": pipe.impl_case(foreign), "alone": outs[k], "after": pipe.impl_tuples(r)})
+    ctx.correspondence("process warm-up: scenarios linted after a differently configured Linter of the same process vs linted in the ordinary batches", n_warm, n_warm, [],
+                       "8 processes, each starting with a scenario that uses custom directive words")
     ctx.extra["oracle"] = ("property-level oracle on the implementation: O=lint(file) vs O0=lint(file with every directive word overwritten "
                            "in place); clauses checked: " + ",".join(focus["clauses"]))
     return scs, outs, outs0, builtin
